@@ -113,12 +113,14 @@ theorem run_discard {β : Type} (m : M α β) (w : World α) :
     (m >>= fun _ => (pure () : M α Unit)) w = match m w with | .ok _ w' => .ok () w' | .thrown e w' => .thrown e w' := by
   rw [bind_run]; cases m w <;> rfl
 
-/-- ONE CALL: invariants re-established in both outcomes; contents per L0 on return; unchanged when a strong call throws -/
-theorem step_spec (cfg : Cfg) (c : Nat) (op : SOp α) (w : World α) (xs : List (Val α))
+/-- ONE CALL, frame form: in both outcomes the container is valid again and everything that is not its own storage is
+    untouched (`Basic`: VecOK, Ledger, empty UB log, `Frame1` incl. the live-block accounting); contents per L0 on return;
+    unchanged when a strong call throws -/
+theorem step_basic (cfg : Cfg) (c : Nat) (op : SOp α) (w : World α) (xs : List (Val α))
     (hp : Pre cfg w c) (hpol : StrongPolicy cfg) (hx : Holds w c xs) (hv : op.valid (w.hdr c).size) :
     match op.run cfg c w w with
-    | .ok _ w' => Pre cfg w' c ∧ Holds w' c (op.spec xs)
-    | .thrown _ w' => Pre cfg w' c ∧ (op.strong = true → Holds w' c xs) := by
+    | .ok _ w' => Basic cfg w w' c ∧ Holds w' c (op.spec xs)
+    | .thrown _ w' => Basic cfg w w' c ∧ (op.strong = true → Holds w' c xs) := by
   have hlen : xs.length = (w.hdr c).size := hx.1
   cases op with
   | pushBack v =>
@@ -128,10 +130,10 @@ theorem step_spec (cfg : Cfg) (c : Nat) (op : SOp α) (w : World α) (xs : List 
     cases hr : appendElement cfg c (.ext v) w with
     | ok r w' =>
       have h := sat_of_ok (appendElement_sat cfg c _ w hp.vec hp.led hp.nmax ha hpol) hr
-      exact ⟨C06.usable_after_throw cfg c w w' hp ⟨h.2.vec, h.2.led, h.2.ub, h.2.frame⟩, (C01.push_back_refines cfg c _ w w' r xs hp ha hpol hx hr).1⟩
+      exact ⟨⟨h.2.vec, h.2.led, h.2.ub, h.2.frame⟩, (C01.push_back_refines cfg c _ w w' r xs hp ha hpol hx hr).1⟩
     | thrown e w' =>
       have h := C05.push_back_strong cfg c _ w w' e xs hp ha hpol hx hr
-      exact ⟨C06.usable_after_throw cfg c w w' hp (C06.push_back_basic cfg c _ w w' e hp ha hpol hr), fun _ => h.1⟩
+      exact ⟨(C06.push_back_basic cfg c _ w w' e hp ha hpol hr), fun _ => h.1⟩
   | pushBackSelf i =>
     have hi : i < xs.length := by rw [hlen]; exact hv
     have hslot := hx.2 i hi
@@ -143,21 +145,21 @@ theorem step_spec (cfg : Cfg) (c : Nat) (op : SOp α) (w : World α) (xs : List 
     cases hr : appendElement cfg c (.copyOf (w.hdr c).data i) w with
     | ok r w' =>
       have h := sat_of_ok (appendElement_sat cfg c _ w hp.vec hp.led hp.nmax ha hpol) hr
-      refine ⟨C06.usable_after_throw cfg c w w' hp ⟨h.2.vec, h.2.led, h.2.ub, h.2.frame⟩, ?_⟩
+      refine ⟨⟨h.2.vec, h.2.led, h.2.ub, h.2.frame⟩, ?_⟩
       have := C11.push_back_alias cfg c i w w' r xs hp hpol hx hi hr
       show Holds w' c (L0.pushBack xs (xs.getD i .husk))
       rw [List.getD_eq_getElem?_getD, List.getElem?_eq_getElem hi]
       exact this
     | thrown e w' =>
       have h := C05.push_back_strong cfg c _ w w' e xs hp ha hpol hx hr
-      exact ⟨C06.usable_after_throw cfg c w w' hp (C06.push_back_basic cfg c _ w w' e hp ha hpol hr), fun _ => h.1⟩
+      exact ⟨(C06.push_back_basic cfg c _ w w' e hp ha hpol hr), fun _ => h.1⟩
   | popBack =>
     show match eraseLast cfg c w with | .ok _ w' => _ | .thrown _ w' => _
     have hs := eraseLast_sat cfg c w hp.vec hp.led hv
     cases hr : eraseLast cfg c w with
     | ok r w' =>
       rw [hr] at hs
-      exact ⟨C06.usable_after_throw cfg c w w' hp hs.basic, hs.holds xs hx⟩
+      exact ⟨hs.basic, hs.holds xs hx⟩
     | thrown e w' => rw [hr] at hs; exact hs.elim
   | erase p =>
     show match (eraseAt cfg c p >>= fun _ => pure ()) w with | .ok _ w' => _ | .thrown _ w' => _
@@ -166,10 +168,10 @@ theorem step_spec (cfg : Cfg) (c : Nat) (op : SOp α) (w : World α) (xs : List 
     cases hr : eraseAt cfg c p w with
     | ok r w' =>
       rw [hr] at hs
-      exact ⟨C06.usable_after_throw cfg c w w' hp hs.2.basic, hs.2.holds xs hx⟩
+      exact ⟨hs.2.basic, hs.2.holds xs hx⟩
     | thrown e w' =>
       rw [hr] at hs
-      exact ⟨C06.usable_after_throw cfg c w w' hp hs.2.1, fun h => by simp [SOp.strong] at h⟩
+      exact ⟨hs.2.1, fun h => by simp [SOp.strong] at h⟩
   | eraseRange p q =>
     show match (SvModel.eraseRange cfg c p q >>= fun _ => pure ()) w with | .ok _ w' => _ | .thrown _ w' => _
     rw [run_discard]
@@ -177,17 +179,17 @@ theorem step_spec (cfg : Cfg) (c : Nat) (op : SOp α) (w : World α) (xs : List 
     cases hr : SvModel.eraseRange cfg c p q w with
     | ok r w' =>
       rw [hr] at hs
-      exact ⟨C06.usable_after_throw cfg c w w' hp hs.2.basic, hs.2.holds xs hx⟩
+      exact ⟨hs.2.basic, hs.2.holds xs hx⟩
     | thrown e w' =>
       rw [hr] at hs
-      exact ⟨C06.usable_after_throw cfg c w w' hp hs.2.1, fun h => by simp [SOp.strong] at h⟩
+      exact ⟨hs.2.1, fun h => by simp [SOp.strong] at h⟩
   | clear =>
     show match eraseAll cfg c w with | .ok _ w' => _ | .thrown _ w' => _
     have hs := eraseAll_sat cfg c w hp.vec hp.led
     cases hr : eraseAll cfg c w with
     | ok r w' =>
       rw [hr] at hs
-      exact ⟨C06.usable_after_throw cfg c w w' hp hs.basic, hs.holds xs hx⟩
+      exact ⟨hs.basic, hs.holds xs hx⟩
     | thrown e w' => rw [hr] at hs; exact hs.elim
   | reserve n =>
     show match requestCapacity cfg c n w with | .ok _ w' => _ | .thrown _ w' => _
@@ -195,22 +197,22 @@ theorem step_spec (cfg : Cfg) (c : Nat) (op : SOp α) (w : World α) (xs : List 
     cases hr : requestCapacity cfg c n w with
     | ok r w' =>
       rw [hr] at hs
-      exact ⟨C06.usable_after_throw cfg c w w' hp hs.1.basic, hs.1.holds xs hx⟩
+      exact ⟨hs.1.basic, hs.1.holds xs hx⟩
     | thrown e w' =>
       rw [hr] at hs
       have hs : Strong w w' := hs
-      exact ⟨C06.usable_after_throw cfg c w w' hp (hs.basic hp.led hp.vec), fun _ => hs.holds hp.led hp.vec hx⟩
+      exact ⟨(hs.basic hp.led hp.vec), fun _ => hs.holds hp.led hp.vec hx⟩
   | shrinkToFit =>
     show match shrinkToSize cfg c w with | .ok _ w' => _ | .thrown _ w' => _
     have hs := shrinkToSize_sat cfg c w hp.vec hp.led hp.nmax hpol
     cases hr : shrinkToSize cfg c w with
     | ok r w' =>
       rw [hr] at hs
-      exact ⟨C06.usable_after_throw cfg c w w' hp hs.1.basic, hs.1.holds xs hx⟩
+      exact ⟨hs.1.basic, hs.1.holds xs hx⟩
     | thrown e w' =>
       rw [hr] at hs
       have hs : Strong w w' := hs
-      exact ⟨C06.usable_after_throw cfg c w w' hp (hs.basic hp.led hp.vec), fun _ => hs.holds hp.led hp.vec hx⟩
+      exact ⟨(hs.basic hp.led hp.vec), fun _ => hs.holds hp.led hp.vec hx⟩
   | resize n d =>
     have ha : ArgOK cfg w c (.value d) := ⟨rfl, fun _ _ h => by simp [Src.loc] at h, fun _ _ h => by simp [Src.loc] at h⟩
     show match resizeWith cfg c n (.value d) w with | .ok _ w' => _ | .thrown _ w' => _
@@ -218,11 +220,11 @@ theorem step_spec (cfg : Cfg) (c : Nat) (op : SOp α) (w : World α) (xs : List 
     cases hr : resizeWith cfg c n (.value d) w with
     | ok r w' =>
       rw [hr] at hs
-      exact ⟨C06.usable_after_throw cfg c w w' hp hs.basic, hs.holds xs hx⟩
+      exact ⟨hs.basic, hs.holds xs hx⟩
     | thrown e w' =>
       rw [hr] at hs
       have hs : Strong w w' := hs
-      exact ⟨C06.usable_after_throw cfg c w w' hp (hs.basic hp.led hp.vec), fun _ => hs.holds hp.led hp.vec hx⟩
+      exact ⟨(hs.basic hp.led hp.vec), fun _ => hs.holds hp.led hp.vec hx⟩
   | resizeVal n v =>
     have ha : ArgOK cfg w c (.ext v) := ⟨rfl, fun _ _ h => by simp [Src.loc] at h, fun _ _ h => by simp [Src.loc] at h⟩
     show match resizeWith cfg c n (.ext v) w with | .ok _ w' => _ | .thrown _ w' => _
@@ -230,11 +232,11 @@ theorem step_spec (cfg : Cfg) (c : Nat) (op : SOp α) (w : World α) (xs : List 
     cases hr : resizeWith cfg c n (.ext v) w with
     | ok r w' =>
       rw [hr] at hs
-      exact ⟨C06.usable_after_throw cfg c w w' hp hs.basic, hs.holds xs hx⟩
+      exact ⟨hs.basic, hs.holds xs hx⟩
     | thrown e w' =>
       rw [hr] at hs
       have hs : Strong w w' := hs
-      exact ⟨C06.usable_after_throw cfg c w w' hp (hs.basic hp.led hp.vec), fun _ => hs.holds hp.led hp.vec hx⟩
+      exact ⟨(hs.basic hp.led hp.vec), fun _ => hs.holds hp.led hp.vec hx⟩
   | append vs =>
     show match (appendRangeFwd cfg c true (vs.map Src.ext) >>= fun _ => pure ()) w with | .ok _ w' => _ | .thrown _ w' => _
     rw [run_discard]
@@ -242,11 +244,11 @@ theorem step_spec (cfg : Cfg) (c : Nat) (op : SOp α) (w : World α) (xs : List 
     cases hr : appendRangeFwd cfg c true (vs.map Src.ext) w with
     | ok r w' =>
       rw [hr] at hs
-      exact ⟨C06.usable_after_throw cfg c w w' hp hs.2.basic, (C01.append_range_refines cfg c vs w w' r xs hp hpol hx hr).1⟩
+      exact ⟨hs.2.basic, (C01.append_range_refines cfg c vs w w' r xs hp hpol hx hr).1⟩
     | thrown e w' =>
       rw [hr] at hs
       have hst : Strong w w' := hs.1 rfl
-      exact ⟨C06.usable_after_throw cfg c w w' hp (hst.basic hp.led hp.vec), fun _ => hst.holds hp.led hp.vec hx⟩
+      exact ⟨(hst.basic hp.led hp.vec), fun _ => hst.holds hp.led hp.vec hx⟩
   | insertEndN n v =>
     have ha : ArgOK cfg w c (.ext v) := ⟨rfl, fun _ _ h => by simp [Src.loc] at h, fun _ _ h => by simp [Src.loc] at h⟩
     show match (appendCopies cfg c n (.ext v) >>= fun _ => pure ()) w with | .ok _ w' => _ | .thrown _ w' => _
@@ -255,10 +257,10 @@ theorem step_spec (cfg : Cfg) (c : Nat) (op : SOp α) (w : World α) (xs : List 
     cases hr : appendCopies cfg c n (.ext v) w with
     | ok r w' =>
       rw [hr] at hs
-      exact ⟨C06.usable_after_throw cfg c w w' hp hs.2.basic, (C01.insert_n_at_end_refines cfg c n _ w w' r xs hp ha hx hr).1⟩
+      exact ⟨hs.2.basic, (C01.insert_n_at_end_refines cfg c n _ w w' r xs hp ha hx hr).1⟩
     | thrown e w' =>
       rw [hr] at hs
-      exact ⟨C06.usable_after_throw cfg c w w' hp hs.2.1, fun h => by simp [SOp.strong] at h⟩
+      exact ⟨hs.2.1, fun h => by simp [SOp.strong] at h⟩
   | insert p v =>
     have ha : ArgOK cfg w c (.ext v) := ⟨rfl, fun _ _ h => by simp [Src.loc] at h, fun _ _ h => by simp [Src.loc] at h⟩
     show match (emplaceAt cfg c p (.ext v) false >>= fun _ => pure ()) w with | .ok _ w' => _ | .thrown _ w' => _
@@ -267,10 +269,10 @@ theorem step_spec (cfg : Cfg) (c : Nat) (op : SOp α) (w : World α) (xs : List 
     cases hr : emplaceAt cfg c p (.ext v) false w with
     | ok r w' =>
       rw [hr] at hs
-      exact ⟨C06.usable_after_throw cfg c w w' hp hs.2.1.basic, hs.2.1.holds xs hx⟩
+      exact ⟨hs.2.1.basic, hs.2.1.holds xs hx⟩
     | thrown e w' =>
       rw [hr] at hs
-      exact ⟨C06.usable_after_throw cfg c w w' hp hs.1.1, fun h => by simp [SOp.strong] at h⟩
+      exact ⟨hs.1.1, fun h => by simp [SOp.strong] at h⟩
   | insertMove p v =>
     have ha : ArgOK cfg w c (.extMove v) := ⟨rfl, fun _ _ h => by simp [Src.loc] at h, fun _ _ h => by simp [Src.loc] at h⟩
     show match (emplaceAt cfg c p (.extMove v) true >>= fun _ => pure ()) w with | .ok _ w' => _ | .thrown _ w' => _
@@ -279,10 +281,10 @@ theorem step_spec (cfg : Cfg) (c : Nat) (op : SOp α) (w : World α) (xs : List 
     cases hr : emplaceAt cfg c p (.extMove v) true w with
     | ok r w' =>
       rw [hr] at hs
-      exact ⟨C06.usable_after_throw cfg c w w' hp hs.2.1.basic, hs.2.1.holds xs hx⟩
+      exact ⟨hs.2.1.basic, hs.2.1.holds xs hx⟩
     | thrown e w' =>
       rw [hr] at hs
-      exact ⟨C06.usable_after_throw cfg c w w' hp hs.1.1, fun h => by simp [SOp.strong] at h⟩
+      exact ⟨hs.1.1, fun h => by simp [SOp.strong] at h⟩
   | insertSelf p i =>
     have hi : i < xs.length := by rw [hlen]; exact hv.2
     have hslot := hx.2 i hi
@@ -295,7 +297,7 @@ theorem step_spec (cfg : Cfg) (c : Nat) (op : SOp α) (w : World α) (xs : List 
     cases hr : emplaceAt cfg c p (.copyOf (w.hdr c).data i) false w with
     | ok r w' =>
       rw [hr] at hs
-      refine ⟨C06.usable_after_throw cfg c w w' hp hs.2.1.basic, ?_⟩
+      refine ⟨hs.2.1.basic, ?_⟩
       have := hs.2.1.holds xs hx
       rw [srcVal_copyOf w _ _ _ hslot] at this
       show Holds w' c (L0.insertAt xs p (xs.getD i .husk)).1
@@ -303,17 +305,17 @@ theorem step_spec (cfg : Cfg) (c : Nat) (op : SOp α) (w : World α) (xs : List 
       exact this
     | thrown e w' =>
       rw [hr] at hs
-      exact ⟨C06.usable_after_throw cfg c w w' hp hs.1.1, fun h => by simp [SOp.strong] at h⟩
+      exact ⟨hs.1.1, fun h => by simp [SOp.strong] at h⟩
   | assign n v =>
     show match assignWithCopies cfg c n (.ext v) w with | .ok _ w' => _ | .thrown _ w' => _
     have hs := assignWithCopies_sat cfg c n v w hp.vec hp.led hp.nmax
     cases hr : assignWithCopies cfg c n (.ext v) w with
     | ok r w' =>
       rw [hr] at hs
-      exact ⟨C06.usable_after_throw cfg c w w' hp hs.basic, hs.holds⟩
+      exact ⟨hs.basic, hs.holds⟩
     | thrown e w' =>
       rw [hr] at hs
-      exact ⟨C06.usable_after_throw cfg c w w' hp hs.1.1, fun h => by simp [SOp.strong] at h⟩
+      exact ⟨hs.1.1, fun h => by simp [SOp.strong] at h⟩
   | assignRange vs =>
     have hext : External (vs.map (Src.ext (α := α))) := fun s hs => by obtain ⟨a, _, rfl⟩ := List.mem_map.mp hs; rfl
     show match assignWithRangeFwd cfg c (vs.map Src.ext) w with | .ok _ w' => _ | .thrown _ w' => _
@@ -322,13 +324,13 @@ theorem step_spec (cfg : Cfg) (c : Nat) (op : SOp α) (w : World α) (xs : List 
     | ok r w' =>
       rw [hr] at hs
       have hm : (vs.map Src.ext).map (srcVal w) = vs.map Val.val := by simp [srcVal, Function.comp_def]
-      refine ⟨C06.usable_after_throw cfg c w w' hp hs.basic, ?_⟩
+      refine ⟨hs.basic, ?_⟩
       have := hs.holds
       rw [hm] at this
       exact this
     | thrown e w' =>
       rw [hr] at hs
-      exact ⟨C06.usable_after_throw cfg c w w' hp hs.1.1, fun h => by simp [SOp.strong] at h⟩
+      exact ⟨hs.1.1, fun h => by simp [SOp.strong] at h⟩
   | insertN p n v =>
     have ha : ArgOK cfg w c (.ext v) := ⟨rfl, fun _ _ h => by simp [Src.loc] at h, fun _ _ h => by simp [Src.loc] at h⟩
     show match (insertCopies cfg c p n (.ext v) >>= fun _ => pure ()) w with | .ok _ w' => _ | .thrown _ w' => _
@@ -337,10 +339,10 @@ theorem step_spec (cfg : Cfg) (c : Nat) (op : SOp α) (w : World α) (xs : List 
     cases hr : insertCopies cfg c p n (.ext v) w with
     | ok r w' =>
       rw [hr] at hs
-      exact ⟨C06.usable_after_throw cfg c w w' hp hs.2.1.basic, hs.2.1.holds xs hx⟩
+      exact ⟨hs.2.1.basic, hs.2.1.holds xs hx⟩
     | thrown e w' =>
       rw [hr] at hs
-      exact ⟨C06.usable_after_throw cfg c w w' hp hs.1, fun h => by simp [SOp.strong] at h⟩
+      exact ⟨hs.1, fun h => by simp [SOp.strong] at h⟩
   | insertNSelf p n i =>
     have hi : i < xs.length := by rw [hlen]; exact hv.2
     have hslot := hx.2 i hi
@@ -353,7 +355,7 @@ theorem step_spec (cfg : Cfg) (c : Nat) (op : SOp α) (w : World α) (xs : List 
     cases hr : insertCopies cfg c p n (.copyOf (w.hdr c).data i) w with
     | ok r w' =>
       rw [hr] at hs
-      refine ⟨C06.usable_after_throw cfg c w w' hp hs.2.1.basic, ?_⟩
+      refine ⟨hs.2.1.basic, ?_⟩
       have := hs.2.1.holds xs hx
       rw [srcVal_copyOf w _ _ _ hslot] at this
       show Holds w' c (L0.insertN xs p n (xs.getD i .husk)).1
@@ -361,7 +363,7 @@ theorem step_spec (cfg : Cfg) (c : Nat) (op : SOp α) (w : World α) (xs : List 
       exact this
     | thrown e w' =>
       rw [hr] at hs
-      exact ⟨C06.usable_after_throw cfg c w w' hp hs.1, fun h => by simp [SOp.strong] at h⟩
+      exact ⟨hs.1, fun h => by simp [SOp.strong] at h⟩
   | insertRange p vs =>
     have hlen' : 0 < (vs.map (Src.ext (α := α))).length := by
       cases vs with
@@ -373,18 +375,29 @@ theorem step_spec (cfg : Cfg) (c : Nat) (op : SOp α) (w : World α) (xs : List 
     cases hr : insertRangeFwd cfg c p (vs.map Src.ext) w with
     | ok r w' =>
       rw [hr] at hs
-      refine ⟨C06.usable_after_throw cfg c w w' hp hs.2.1.basic, ?_⟩
+      refine ⟨hs.2.1.basic, ?_⟩
       have := hs.2.1.holds xs hx
       rw [map_srcVal_ext] at this
       exact this
     | thrown e w' =>
       rw [hr] at hs
-      exact ⟨C06.usable_after_throw cfg c w w' hp hs.1, fun h => by simp [SOp.strong] at h⟩
+      exact ⟨hs.1, fun h => by simp [SOp.strong] at h⟩
 
 /-! ### histories -/
 
 instance (size : Nat) (op : SOp α) : Decidable (op.valid size) := by
   cases op <;> unfold SOp.valid <;> exact inferInstance
+
+/-- ONE CALL: invariants re-established in both outcomes; contents per L0 on return; unchanged when a strong call throws -/
+theorem step_spec (cfg : Cfg) (c : Nat) (op : SOp α) (w : World α) (xs : List (Val α))
+    (hp : Pre cfg w c) (hpol : StrongPolicy cfg) (hx : Holds w c xs) (hv : op.valid (w.hdr c).size) :
+    match op.run cfg c w w with
+    | .ok _ w' => Pre cfg w' c ∧ Holds w' c (op.spec xs)
+    | .thrown _ w' => Pre cfg w' c ∧ (op.strong = true → Holds w' c xs) := by
+  have h := step_basic cfg c op w xs hp hpol hx hv
+  cases hr : op.run cfg c w w with
+  | ok r w' => rw [hr] at h; exact ⟨C06.usable_after_throw cfg c w w' hp h.1, h.2⟩
+  | thrown e w' => rw [hr] at h; exact ⟨C06.usable_after_throw cfg c w w' hp h.1, h.2⟩
 
 /-- one call of a history: install the fault list, run, keep the world (also after a throw) -/
 def stepW (cfg : Cfg) (c : Nat) (w : World α) (x : SOp α × List Nat) : Res (World α) Unit :=
